@@ -461,6 +461,12 @@ class Own:
                                                                               "ares_nameinfo_callback", "ares_addrinfo_callback"))
                 if is_completion and p0 is not None and st_get(ps, p0) in (O, A, B, BN) and strip(args[0]).get("ty") == "void *":
                     ps = move(ps, p0, "callback")
+                if is_completion and len(args) >= 2:
+                    # the result object handed to the user's completion callback (last argument: addrinfo / hostent / record) is the user's
+                    pl = tracked_path(args[-1])
+                    if pl is not None and st_get(ps, pl) in (O, A, B, BN) and (strip(args[-1]).get("ty") or "").rstrip().endswith("*") \
+                            and "ares_addrinfo" in (strip(args[-1]).get("ty") or ""):
+                        ps = move(ps, pl, "completion callback result")
                 return [(ps, pend, dfl, pubs)]
             summ = self.call_summary(f, c)
             if summ is None:
